@@ -7,12 +7,17 @@
 #                unreachable-from (the remote becomes unreachable from the k-th invocation on)
 #   unreachable  if present, every remote-touching subcommand fails like an unreachable remote
 #   log          one line per invocation: "<n> <args>"
+#   date         if present, its content is used as GIT_COMMITTER_DATE / GIT_AUTHOR_DATE (aged commits)
 d="${0%/*}"
 n=0
 [ -f "$d/count" ] && read -r n < "$d/count"
 n=$(( ${n:-0} + 1 ))
 echo "$n" > "$d/count"
 echo "$n $*" >> "$d/log"
+if [ -f "$d/date" ]; then
+  read -r dt < "$d/date"
+  export GIT_COMMITTER_DATE="$dt" GIT_AUTHOR_DATE="$dt"
+fi
 if [ -f "$d/plan" ]; then
   read -r k kind < "$d/plan"
   if [ "$kind" = "unreachable-from" ] && [ "$n" -ge "$k" ]; then : > "$d/unreachable"; fi
